@@ -88,6 +88,34 @@ def run(prop, tier, replay):
                 samples.append(next(iter(rnd.values())))
                 extra["random_cases_trace_validated"] = len(rnd)
                 extra["random_matched_some_policy"] = sum(1 for c in rnd.values() if c["got"] > 0)
+            # a request matched WHILE the policy list is replaced: design model + real matcher paused inside an attribute access
+            if nrand:
+                for variant, expect in (("fresh", False), ("inplace", True)):
+                    sm = vlib.tlc("routing", "RoutingSync", "RoutingSync.cfg", workers=8, timeout=900, consts={"Variant": '"%s"' % variant})
+                    if bool(sm.violation) != expect:
+                        raise Infra("RoutingSync.tla variant %s: unexpected result %s" % (variant, sm.violated()))
+                    extra.setdefault("routing_sync_model_states", 0)
+                    extra["routing_sync_model_states"] += sm.distinct
+                race_p = os.path.join(wd, "race.ndjson")
+                nrace = 1500 if tier == "quick" else 30000
+                r = vlib.run([binp, "-race", str(nrace), str(seed), cases_p, race_p], timeout=900)
+                if r.returncode != 0:
+                    raise Infra("routing -race failed: " + r.stderr[-3000:])
+                rv = vlib.tlc("routing", "TraceRoutingSync", "TraceRoutingSync.cfg", workers=8, timeout=1800, consts={"TraceFile": '"%s"' % race_p})
+                races = {c["id"]: c for c in vlib.read_ndjson(race_p)}
+                if rv.distinct != len(races):
+                    raise Infra("race validation saw %d of %d cases" % (rv.distinct, len(races)))
+                for l in rv.out.splitlines():
+                    if l.startswith('<<"REJECT"'):
+                        parts = l.strip("<>").split(",")
+                        cid = int(parts[1])
+                        c = races[cid]
+                        v.violation("race%d" % cid, {"race": c, "first_match_before": int(parts[2]), "first_match_after": int(parts[3]),
+                                                    "what": "a request matched while the policy list was replaced was handled under policy %r: neither the list before nor the list after selects it" % c["name"]})
+                evaluations += len(races)
+                traces_validated += rv.distinct
+                extra["sync_races"] = len(races)
+                extra["sync_races_paused_mid_match"] = sum(1 for c in races.values() if c["paused"])
             extra["expected_match_cases"] = sum(1 for c in cases.values() if c["expected"] > 0)
             extra["expected_nomatch_cases"] = sum(1 for c in cases.values() if c["expected"] == 0)
         else:  # C17
